@@ -459,6 +459,19 @@ def stage_pack_sequence(ctx):
                 flat(st.value)
                 if ks and all(k is not None for k in ks):
                     keys = ks
+                    continue
+                # [e for g in ('', 'control', ...) for e in self.<cont>[g]]: explicit key order
+                v = st.value
+                if isinstance(v, ast.ListComp) and len(v.generators) == 2 and isinstance(v.elt, ast.Name) and isinstance(v.generators[1].target, ast.Name) and v.generators[1].target.id == v.elt.id:
+                    g0, g1 = v.generators
+                    if isinstance(g0.iter, (ast.Tuple, ast.List)) and all(isinstance(e, ast.Constant) for e in g0.iter.elts) and isinstance(g0.target, ast.Name) \
+                            and ast.unparse(g1.iter) == "self.%s[%s]" % (cont, g0.target.id) and not g0.ifs and not g1.ifs:
+                        keys = [e.value for e in g0.iter.elts]
+                        continue
+                # iteration over the dictionary itself: the order is the order in which the kinds were first declared
+                if any(isinstance(c, ast.comprehension) and ast.unparse(c.iter) in ("self.%s.items()" % cont, "self.%s.values()" % cont, "self.%s.keys()" % cont, "self.%s" % cont) for c in ast.walk(v)) or \
+                        any(isinstance(c, ast.For) and ast.unparse(c.iter).startswith("self.%s" % cont) for c in walk_no_nested(g.node)):
+                    keys = ["<order of first declaration>"]
         if keys is None:
             raise AnalysisError("Stage.%s: concatenation of self.%s[...] not found" % (prop, cont))
         out += ["%s:%s" % (fam, k) for k in keys]
